@@ -364,6 +364,70 @@ def extract_fn(item, opts, blocks, rewrites_log, as_stub=False):
                     q = e + 1; continue
             q += 1
 
+    # ---- R4d (opt iter=1): `X.iter().for_each(|P| { B });` with X any place expression (e.g. self.coeff_modulus)
+    #      ->  `for verif_k in verif_it: 0..X.len() { let P = &X[verif_k]; B }`   (ghost text: iterloop / iterbody / iterend, numbered after R4/R4b loops)
+    if opts.get('iter') == '1' and not as_stub:
+        q = bodyp + 1
+        nloop_d = sum(1 for r in rewrites_log if r.get('rule') == 'R4' and r.get('fn') == item.name)
+        while q < bodye - 8:
+            if (q == bodyp + 1 or tk(q - 1)[1] in (';', '{', '}')) and tk(q)[0] == 'id' and not any(a0 <= tk(q)[2] < b0 for (a0, b0) in r4_spans):
+                # scan a place expression: id (. id)*
+                e = q
+                while tk(e + 1)[1] == '.' and tk(e + 2)[0] == 'id' and tk(e + 2)[1] not in ('iter',): e += 2
+                if e > q and [tk(e + i)[1] for i in range(1, 10)][:9] == ['.', 'iter', '(', ')', '.', 'for_each', '(', '|', tk(e + 9)[1]] and tk(e + 9)[0] == 'id' and tk(e + 10)[1] == '|' and tk(e + 11)[1] == '{':
+                    xexpr = text[tk(q)[2]:tk(e)[3]]; pv = tk(e + 9)[1]
+                    cb = match_close(toks, ci, e + 11); fe = match_close(toks, ci, e + 7)
+                    if fe == cb + 1 and tk(fe + 1)[1] == ';':
+                        nloop_d += 1
+                        s0 = tk(q)[2]; e0 = tk(e + 11)[3]
+                        new = ('for verif_k in verif_it: 0..%s.len() %s{%s let %s = &%s[verif_k];'
+                               % (xexpr, G('iterloop %d' % nloop_d, '\n' + blocks.get('iterloop %d' % nloop_d, '').rstrip() + '\n'),
+                                  G('iterbody %d' % nloop_d, '\n' + blocks.get('iterbody %d' % nloop_d, '').rstrip() + '\n') if blocks.get('iterbody %d' % nloop_d) else '',
+                                  pv, xexpr))
+                        edits.append((s0, e0, R('4', text[s0:e0], new)))
+                        pos = tk(cb)[2]
+                        edits.append((pos, pos, G('iterend %d' % nloop_d, '\n' + blocks.get('iterend %d' % nloop_d, '').rstrip() + '\n')))
+                        # drop the closing `)` and `;` of for_each( ... );
+                        edits.append((tk(fe)[2], tk(fe + 1)[3], R('4', text[tk(fe)[2]:tk(fe + 1)[3]], '')))
+                        r4_spans.append((s0, e0))
+                        rewrites_log.append({'rule': 'R4', 'fn': item.name, 'before': re.sub(r'\s+', ' ', text[s0:e0])[:200], 'after': re.sub(r'/\*@G.*?\*/.*?/\*@/G\*/', '', new, flags=re.S)[:200]})
+                        q = e + 12; continue
+            q += 1
+
+    # ---- R12 (opt nocontinue=1): Verus' for-loops do not support `continue`. A statement `if C {continue;}` that is a DIRECT child of a loop body
+    #      `{ A; if C {continue;} R }` is rewritten into `{ A; if !(C) { R } }` (same control flow: when C holds the rest of the body is skipped).
+    if opts.get('nocontinue') == '1' and not as_stub:
+        q = bodyp + 1
+        while q < bodye - 5:
+            if tk(q)[1] == 'if' and (tk(q - 1)[1] in (';', '{', '}')):
+                ob = q + 1; d2 = 0
+                while ob < bodye and not (tk(ob)[1] == '{' and d2 == 0):
+                    if tk(ob)[1] in ('(', '['): d2 += 1
+                    elif tk(ob)[1] in (')', ']'): d2 -= 1
+                    ob += 1
+                if tk(ob + 1)[1] == 'continue' and tk(ob + 2)[1] == ';' and tk(ob + 3)[1] == '}' and tk(ob + 4)[1] != 'else':
+                    # enclosing block
+                    depth = 0; b = q - 1
+                    while b > bodyp:
+                        if tk(b)[1] in CLOSE: depth += 1
+                        elif tk(b)[1] in OPEN:
+                            if depth == 0: break
+                            depth -= 1
+                        b -= 1
+                    # header of the enclosing block must start with for / while / loop
+                    h = b - 1
+                    while h > bodyp and tk(h)[1] not in (';', '{', '}'): h -= 1
+                    if tk(b)[1] == '{' and tk(h + 1)[1] in ('for', 'while', 'loop'):
+                        cbe = match_close(toks, ci, b)
+                        cond = text[tk(q + 1)[2]:tk(ob - 1)[3]]
+                        s0 = tk(q)[2]; e0 = tk(ob + 3)[3]
+                        edits.append((s0, e0, R('12', text[s0:e0], 'if !(%s) {' % cond)))
+                        pos = tk(cbe)[2]
+                        edits.append((pos, pos, R('12', '', '}')))
+                        rewrites_log.append({'rule': 'R12', 'fn': item.name, 'before': re.sub(r'\s+', ' ', text[s0:e0]), 'after': 'if !(%s) { <rest of the loop body> }' % cond})
+                        q = ob + 4; continue
+            q += 1
+
     # ---- R11: `&mut X[A..B]` on a slice parameter X -> verif_slice_mut(X, A, B) (opt slicemut=1): Verus has no specification
     #      for mutable range indexing; the stub carries the std semantics as an ASSUMED contract.
     if opts.get('slicemut') == '1' and not as_stub:
